@@ -44,7 +44,10 @@ func c08RealTrace(tr c08trace, id string) *types.Trace {
 		for k, v := range sp {
 			m[k] = v
 		}
+		ann, _ := m[c08annotationKey].(string)
+		delete(m, c08annotationKey)
 		s := &types.Span{TraceID: id, Event: &types.Event{Data: types.NewPayload(c08cfg, m)}}
+		s.Data.MetaAnnotationType = ann // span events and span links are trace elements of their own
 		t.AddSpan(s)
 		if i == tr.Root {
 			s.IsRoot = true
@@ -282,6 +285,19 @@ func c08or(ts ...c08tri) c08tri {
 
 const c08virtualDescendants = "?.NUM_DESCENDANTS"
 
+// span map key that makes the element a span event ("span_event") or a span link ("link")
+const c08annotationKey = "meta.annotation_type"
+
+func c08annotations(tr c08trace) int {
+	n := 0
+	for _, sp := range tr.Spans {
+		if _, ok := sp[c08annotationKey]; ok {
+			n++
+		}
+	}
+	return n
+}
+
 func c08isVirtual(c c08cond) bool {
 	return len(c.Fields) == 1 && !c.AsList && c.Fields[0] == c08virtualDescendants
 }
@@ -341,8 +357,9 @@ func c08negativeOrCoerced(c c08cond) bool {
 }
 
 var (
-	c08reInt = regexp.MustCompile(`^-?(0|[1-9][0-9]{0,14})$`)
-	c08reDec = regexp.MustCompile(`^-?(0|[1-9][0-9]{0,14})\.[0-9]{1,6}$`)
+	// decimal text, zero-padded or with an explicit sign: "010" is ten, "+5" is five
+	c08reInt = regexp.MustCompile(`^[+-]?[0-9]{1,15}$`)
+	c08reDec = regexp.MustCompile(`^[+-]?[0-9]{1,15}\.[0-9]{1,6}$`)
 )
 
 // a string no number syntax could mean: it has a letter that is neither a hex digit nor
@@ -877,7 +894,7 @@ var c08spanValues = []any{
 	int64(0), int64(1), int64(-1), int64(2), int64(5), int64(10), int64(200), int64(404), int64(500), int64(1)<<53 + 1,
 	0.5, 1.5, 2.0, 200.0, -1.5, 99.9, 1e21,
 	true, false,
-	"", "abc", "ABC", "GET", "POST", "/health", "/healthz", "/api/health", "error", "200", "500", "10", "2", "1", "0", "1.5", "007", "5.5",
+	"", "abc", "ABC", "GET", "POST", "/health", "/healthz", "/api/health", "error", "200", "500", "10", "2", "1", "0", "1.5", "007", "010", "0100", "0089", "+5", "-010", "5.5",
 	"true", "false", "TRUE", "t", "yes", "nil", "<nil>", "<", "1e3", " 5",
 }
 
@@ -913,6 +930,7 @@ func c08genTrace(rng *verifkit.Rand) c08trace {
 		}
 	}
 	tr.Big = rng.Chance(0.07)
+	annotated := rng.Chance(0.15) // some elements are span events / span links (never the root)
 	// in a big-integer trace each field holds values from one neighbourhood
 	hood := map[string]int{}
 	for _, f := range c08fields {
@@ -920,6 +938,9 @@ func c08genTrace(rng *verifkit.Rand) c08trace {
 	}
 	for i := range tr.Spans {
 		tr.Spans[i] = c08span{"other": int64(i)}
+		if annotated && i != tr.Root && rng.Chance(0.6) {
+			tr.Spans[i][c08annotationKey] = verifkit.Pick(rng, "span_event", "link")
+		}
 		for _, f := range c08fields {
 			if active[f] && rng.Chance(0.55) {
 				if tr.Big {
@@ -980,7 +1001,7 @@ func c08genScalar(rng *verifkit.Rand, dt string) any {
 		case 0:
 			return verifkit.Pick[any](rng, 0.5, 1.5, 2.0, 200.0, 99.9, 5.5)
 		case 1:
-			return verifkit.Pick[any](rng, "200", "5", "1", "0", "1.5")
+			return verifkit.Pick[any](rng, "200", "5", "1", "0", "1.5", "010", "0100", "0089", "+5", "0200")
 		default:
 			return verifkit.Pick[any](rng, 0, 1, 2, 5, 10, 200, 404, 500, -1, int64(5), int64(200))
 		}
@@ -1033,7 +1054,7 @@ func c08genCond(rng *verifkit.Rand, tr c08trace, scope string) c08cond {
 		return f
 	}
 	switch {
-	case rng.Chance(0.06) && c.Op != "exists" && c.Op != "not-exists":
+	case (rng.Chance(0.06) || (c08annotations(tr) > 0 && rng.Chance(0.4))) && c.Op != "exists" && c.Op != "not-exists":
 		c.Fields = []string{c08virtualDescendants}
 		if c.Datatype == "bool" || c.Datatype == "string" {
 			c.Datatype = "int"
@@ -1066,9 +1087,14 @@ func c08genCond(rng *verifkit.Rand, tr c08trace, scope string) c08cond {
 		kind := rng.Intn(3)
 		if c.Datatype == "int" || c.Datatype == "float" {
 			kind = 1 + rng.Intn(2)
+			if rng.Chance(0.2) {
+				kind = 3 // numbers written as quoted text
+			}
 		}
 		for n := rng.Range(1, 3); len(list) < n; {
 			switch kind {
+			case 3:
+				list = append(list, verifkit.Pick[any](rng, "10", "010", "0100", "100", "0089", "89", "+5", "5", "200", "0200"))
 			case 0:
 				list = append(list, verifkit.Pick[any](rng, "abc", "GET", "POST", "200", "500", "/health", "<nil>", "", "true", "1", "error"))
 			case 1:
@@ -1094,7 +1120,8 @@ func c08genCond(rng *verifkit.Rand, tr c08trace, scope string) c08cond {
 		c.Value = list
 	default:
 		if c08isVirtual(c) {
-			c.Value = verifkit.Pick[any](rng, len(tr.Spans), len(tr.Spans), len(tr.Spans)+1, len(tr.Spans)-1, 1, 3, int64(len(tr.Spans)), float64(len(tr.Spans)))
+			regular := len(tr.Spans) - c08annotations(tr)
+			c.Value = verifkit.Pick[any](rng, len(tr.Spans), len(tr.Spans), len(tr.Spans)+1, len(tr.Spans)-1, regular, regular, 1, 3, int64(len(tr.Spans)), float64(len(tr.Spans)))
 			break
 		}
 		if v, ok := c08valueFromTrace(rng, tr, c.Fields); ok && (rng.Chance(0.5) || tr.Big) {
